@@ -75,7 +75,8 @@ class WorldC11(World):
     PROBES = ('decode-same-dict-twice', 'cycles>=3', 'nested-depth>=3', 'shared-species-in-reactions', 'statmech-with-references',
               'statmech-with-misc-models', 'empirical-with-cov-model', 'edit-then-encode', 'via-text', 'via-dict', 'nasa9-segments-not-ascending', 'scrambled-first-decode',
               'references-offsets-cleared', 'decode-in-a-fresh-interpreter', 'evaluated-before-encoding',
-              'refused-mutator-before-encoding', 'nested-species-edited') + \
+              'refused-mutator-before-encoding', 'nested-species-edited', 'references-offsets-only',
+              'model-appended-after-construction') + \
         tuple('class-' + k for k in ALL_KINDS)
     REAL = ('pmutt.io.json (pmuttEncoder, json_to_pmutt, type_to_class, remove_class)', 'to_dict/from_dict of every class built',
             'json module', 'every get_* getter of the built objects')
@@ -212,6 +213,9 @@ class WorldC11(World):
                 rd['elements'] = els[i]
                 rd['name'] = 'ref%d' % i
                 refs.append(rd)
+            if rng.random() < 0.2:
+                # offsets only: the table of a published fit, without the species it was fitted to
+                return {'k': kind, 'refs': [], 'offset': {'H': round(u(-20, 0), 4), 'O': round(u(-900, -700), 3)}}
             return {'k': kind, 'refs': refs}
         if kind == 'LSR':
             return {'k': kind, 'slope': round(u(0, 1), 3), 'intercept': round(u(-3, 3), 3),
@@ -257,6 +261,8 @@ class WorldC11(World):
         kind = rng.choice(kinds)
         if sw.get('cold') and not self.cold_done and rng.random() < 0.35:
             return {'c': c, 'op': 'cold_decode', 'args': {'id': k}}
+        if self.meta[k]['kind'] in ('Nasa', 'Nasa9', 'Shomate') and rng.random() < 0.15:
+            return {'c': c, 'op': 'edit', 'args': {'id': k, 'attr': 'misc_models.append()', 'value': round(rng.uniform(-20, 20), 2)}}
         if self.meta[k]['kind'] in ('Nasa', 'Nasa9', 'Shomate') and rng.random() < 0.2:
             # the object has a past: it was evaluated somewhere else before it is encoded
             return {'c': c, 'op': 'edit', 'args': {'id': k, 'attr': 'touch()', 'value': rng.choice([300.0, 1500.0, 2500.0, 5000.0])}}
@@ -374,6 +380,9 @@ class WorldC11(World):
             return refs.Reference(name=d['name'], elements=copy.deepcopy(d['elements']), T_ref=d['T_ref'],
                                   HoRT_ref=d['HoRT_ref'], model=model)
         if k == 'References':
+            if d.get('offset') is not None:
+                self.ctx.probe('references-offsets-only')
+                return refs.References(offset=dict(d['offset']), references=[self.build(r) for r in d['refs']])
             return refs.References(references=[self.build(r) for r in d['refs']])
         if k in ('Reaction', 'ChemkinReaction', 'SurfaceReaction'):
             sp = shared if shared is not None else [self.build(s) for s in d['species']]
@@ -546,6 +555,16 @@ class WorldC11(World):
             ctx.probe('references-offsets-cleared')
             m['edited'] = True
             return 'cleared'
+        if name == 'edit' and a['attr'] == 'misc_models.append()':
+            mm = getattr(obj, 'misc_models', None)
+            if not isinstance(mm, list):
+                raise Skip()
+            import pmutt.mixture.cov as _cov
+            mm.append(_cov.PiecewiseCovEffect(name_i=getattr(obj, 'name', 'X'), name_j='O*', intervals=[0.0, 0.4],
+                                              slopes=[a['value'], -a['value']]))
+            ctx.probe('model-appended-after-construction')
+            m['edited'] = True
+            return 'appended'
         if name == 'edit' and a['attr'] == 'touch()':
             for nm in ('get_CpoR', 'get_HoRT', 'get_SoR'):
                 fn = getattr(obj, nm, None)
